@@ -21,6 +21,8 @@ def local_names(t, ev):
         t2 = re.sub(r"^%s::token::Token::" % ev, "Token.", t2)
         t2 = re.sub(r"^%s::tokenizer::" % ev, "Lex.", t2)
         t2 = re.sub(r"^%s::ast::" % ev, "Ast.", t2)
+        # free functions of any other module of the evaluator's evaluation side (ast.rs split into several files)
+        t2 = re.sub(r"^%s::(?!parser::|token::|tokenizer::|number::)\w+::(\w+)$" % ev, r"Ast.\1", t2)
         t2 = re.sub(r"^utils::\w+::", "utils.", t2)
         t2 = t2.replace("<std::iter::Peekable<std::str::Chars<'_>> as iter::Iterator>::", "Chars.")
         t2 = t2.replace("<std::iter::Peekable<std::str::Chars<'a>> as iter::Iterator>::", "Chars.")
@@ -291,7 +293,11 @@ class EvTables:
         if not isinstance(name, str):
             return None
         if name.startswith("Ast."):
-            return self.fn("::ast::" + name[4:])
+            f = self._fn_by_suffix("::ast::" + name[4:])
+            if f is None and re.match(r"^\w+$", name[4:]):
+                c = [g for k, g in self.F.by_key.items() if g.evaluator == self.ev and g.kind != "Closure" and re.match(r"^%s::(?!parser::|token::|tokenizer::|number::)\w+::%s$" % (self.ev, re.escape(name[4:])), k)]
+                f = c[0] if len(c) == 1 else None
+            return f
         if name.startswith("Token."):
             if name[6:] in ("get_oper_prec",):
                 return None     # the token -> category table is read as a table (prec_table), not inlined
@@ -521,8 +527,11 @@ class EvTables:
             return EvTables.arm_ctor_names(pat["sub"])
         return []
 
+    def helper_fn(self, name):
+        return self.resolve_local("Ast." + name) or self._fn_by_suffix("::ast::" + name)
+
     def helper_term(self, name, inline_pure=True):
-        f = self.fn("::ast::" + name)
+        f = self.helper_fn(name)
         if f is None:
             return None
         return self.fn_term(f, inline_pure=inline_pure)
